@@ -78,6 +78,10 @@ def run_histories(jobs):
                 def give(self, k):
                     return objs[k]
             d.register(Helper(), "helper")
+            daemon_obj = d.objectsById["Pyro.Daemon"]
+
+            def kept():
+                return d.objectsById.get("Pyro.Daemon") is daemon_obj
             gen_ids = []
 
             def real_id(i):
@@ -119,16 +123,16 @@ def run_histories(jobs):
                                 gotid = "g%d" % len(gen_ids)
                             else:
                                 gotid = "g%d" % (len(gen_ids) + 1)
-                            tr.append(dict(ev, out=out.split(":")[0], gotid=gotid))
+                            tr.append(dict(ev, out=out.split(":")[0], gotid=gotid, daemon_kept=kept()))
                         else:
                             out, _ = outcome(lambda: d.register(objs[o], real_id(i), force=ev["force"], weak=ev["weak"]))
-                            tr.append(dict(ev, out=out.split(":")[0], gotid=""))
+                            tr.append(dict(ev, out=out.split(":")[0], gotid="", daemon_kept=kept()))
                     elif a == "unregister_id":
                         out, _ = outcome(lambda: d.unregister(real_id(i)))
-                        tr.append(dict(ev, out=out.split(":")[0]))
+                        tr.append(dict(ev, out=out.split(":")[0], daemon_kept=kept()))
                     elif a == "unregister_obj":
-                        out, _ = outcome(lambda: d.unregister(objs[o]))
-                        tr.append(dict(ev, out=out.split(":")[0]))
+                        out, _ = outcome(lambda: d.unregister(objs[o] if o else daemon_obj))
+                        tr.append(dict(ev, out=out.split(":")[0], daemon_kept=kept()))
                     elif a == "gc":
                         del objs[o]
                         gc.collect()
